@@ -177,6 +177,12 @@ fn make_server(id: &str, g: &Game, beh: Beh, rng: &mut Rng) -> Box<dyn Server> {
                 st.rules.push(("bat_max_players_i".into(), "12".into()));
                 b.server.plan[2] = vec![Behaviour::Answer(vec![st.rules_message()])];
             }
+            if id == "ror2" && rng.bool() {
+                // Risk of Rain 2 servers send a rule named Test that the library drops for this game only
+                let mut st = b.state.clone();
+                st.rules.push(("Test".into(), "1".into()));
+                b.server.plan[2] = vec![Behaviour::Answer(vec![st.rules_message()])];
+            }
             match beh {
                 Beh::PlayersSilent => b.server.plan[1] = vec![Behaviour::Silent],
                 Beh::RulesSilent => b.server.plan[2] = vec![Behaviour::Silent],
@@ -307,16 +313,44 @@ impl Check for C14 {
             return;
         }
         let ip = IpAddr::V4(Ipv4Addr::new(10, 14, cx.rng.u8(), cx.rng.u8().max(1)));
-        let port = given.then(|| cx.rng.range(1024, 65535) as u16);
+        // a given port is whatever number the caller gives: the edges of the range and the default itself included
+        let port = given.then(|| if cx.rng.chance(1, 5) { *cx.rng.pick(&[0u16, 1, 65535, g.default_port]) } else { cx.rng.range(1024, 65535) as u16 });
+        // for the protocols that take gather settings: caller-supplied extra settings on the generic path against the
+        // protocol function given the same settings (the per-game modules take none and are left out of these cases)
+        let extra: Option<gamedig::ExtraRequestSettings> = (matches!(g.protocol, Protocol::Valve(_) | Protocol::Unreal2) && cx.rng.chance(1, 3)).then(|| {
+            use gamedig::protocols::types::GatherToggle as T;
+            let mut x = gamedig::ExtraRequestSettings::default();
+            let tg = [T::Skip, T::Try, T::Enforce];
+            // setters in a random order, a host name among them (no field of these protocols depends on it)
+            let mut order: Vec<u8> = vec![0, 1, 2, 3];
+            cx.rng.shuffle(&mut order);
+            for o in order {
+                if cx.rng.chance(1, 3) {
+                    continue;
+                }
+                x = match o {
+                    0 => x.set_gather_players(*cx.rng.pick(&tg)),
+                    1 => x.set_gather_rules(*cx.rng.pick(&tg)),
+                    2 => x.set_check_app_id(cx.rng.bool()),
+                    _ => x.set_hostname("example.org".to_string()),
+                };
+            }
+            x
+        });
         let base_rng = cx.rng.clone();
         let mut runs: Vec<(&str, Outcome<Option<R>>, Vec<String>)> = Vec::new();
         for path in ["A:generic", "B:module", "C:protocol"] {
             let mut rng = base_rng.clone();
             let server = make_server(id, g, beh, &mut rng);
             let run = run_with(server, DEFAULT_STEP_LIMIT, || match path {
-                "A:generic" => Some(as_r(gamedig::query_with_timeout_and_extra_settings(g, &ip, port, None, None), |b| common_value(b.as_ref(), true))),
+                "A:generic" => Some(as_r(gamedig::query_with_timeout_and_extra_settings(g, &ip, port, None, extra.clone()), |b| common_value(b.as_ref(), true))),
+                "B:module" if extra.is_some() => None,
                 "B:module" => module_query(id, g, &ip, port),
-                _ => protocol_query(g, &ip, port),
+                _ => match (&extra, &g.protocol) {
+                    (Some(x), Protocol::Valve(e)) => Some(as_r(valve::query(&SocketAddr::new(ip, port.unwrap_or(g.default_port)), *e, Some(x.clone().into()), None), |r| tv(crate::models::valve::project_game(&r)))),
+                    (Some(x), Protocol::Unreal2) => Some(as_r(unreal2::query(&SocketAddr::new(ip, port.unwrap_or(g.default_port)), &x.clone().into(), None), tv)),
+                    _ => protocol_query(g, &ip, port),
+                },
             });
             cx.eval();
             let log = log_of(&run.net);
@@ -325,8 +359,12 @@ impl Check for C14 {
         let label = format!("{id}|{beh:?}|port={}", if given { "given" } else { "default" });
         // unmapped?
         if let Outcome::Returned(None) = &runs[1].1 {
-            cx.inconclusive(&format!("unmapped module for {id}"));
-            cx.count("unmapped");
+            if extra.is_some() {
+                cx.count("cases-with-caller-supplied-extra-settings");
+            } else {
+                cx.inconclusive(&format!("unmapped module for {id}"));
+                cx.count("unmapped");
+            }
             runs.remove(1);
         }
         for (p, o, _) in &runs {
